@@ -1235,11 +1235,9 @@ pub fn stream_body() -> Box<dyn PrepareCall> {
                 #[cfg(not(feature = "uring"))]
                 let file_len = meta.len();
 
-                let end = if let Some((_, end)) = range {
-                    end
-                } else {
-                    file_len
-                };
+                // Never announce more than the file holds.
+                let end = range.map_or(file_len, |(_, end)| end.min(file_len));
+                let start = start.min(end);
                 let len = end - start;
 
                 #[cfg(not(feature = "uring"))]
